@@ -2,6 +2,9 @@ import Driver.Util
 import KdVerif.Model.PyIR
 import KdVerif.Gen.PyIR
 import KdVerif.Spec.PyIRExpected
+import KdVerif.Model.PyIRCs
+import KdVerif.Gen.PyIRCs
+import KdVerif.Spec.PyIRCsExpected
 open KdVerif
 namespace Driver.PyIR
 open KdVerif.PyIR
@@ -75,6 +78,61 @@ def cmdCheck : Cmd := fun _ =>
   if d.isEmpty then "same" else
     "differs " ++ ",".intercalate d ++ (if unsupported then " unsupported" else "")
 
-def commands : List (String × Cmd) := [("pyir", cmdPyIR), ("pyircheck", cmdCheck)]
+/-! ### callstacks_parser.py -/
+
+def csUnsupported : Bool :=
+  Gen.PyIRCs.insertImage.body.hasUnsupported || Gen.PyIRCs.frameLoop.body.hasUnsupported || !Gen.PyIRCs.notes.isEmpty
+
+def parseAnn (s : String) : Option (Nat × Bytes) :=
+  match s.splitOn ":" with
+  | [a, u] => do let n ← a.toNat?; let b ← ofHex u; pure (n, b)
+  | _ => none
+
+def parseAnns (s : String) : Option (List (Nat × Bytes)) :=
+  if s = "-" then some [] else (s.splitOn ",").mapM parseAnn
+
+def showFrameV (f : PyIRCs.FrameV) : String :=
+  match f.uuid, f.offset with
+  | none, none => s!"{f.address}"
+  | some u, some o => s!"{f.address}:{toHex u}:{o}"
+  | _, _ => s!"{f.address}:?"
+
+def csInsertAll (st : Callstacks.Images) : List (Nat × Bytes) → Except PyErr Callstacks.Images
+  | [] => .ok st
+  | (a, u) :: rest =>
+    match PyIRCs.run Gen.PyIRCs.insertImage [.int a, .uuid u] st with
+    | .ok (.none, st') => csInsertAll st' rest
+    | .ok _ => .error .unmodelled
+    | .error e => .error e
+
+/-- `csir <addr:uuidhex,… or -> <frame,… or ->` : the GENERATED `insert_image` run for every announcement from two
+    empty lists, then the GENERATED frame loop on the frames; answer `ok <addresses>|<uuids>|<frames>`. -/
+def cmdCsIR : Cmd
+  | [anns, frs] =>
+    if csUnsupported then "unsupported" else
+    match parseAnns anns, parseNatList frs with
+    | some as, some fs =>
+      match csInsertAll Callstacks.Images.empty as with
+      | .error e => "err " ++ e.name
+      | .ok st =>
+        match PyIRCs.run Gen.PyIRCs.frameLoop [.sample fs] st with
+        | .ok (.frames l, st') =>
+          "ok " ++ natListC st'.addrs ++ "|" ++ ",".intercalate (st'.uuids.map toHex) ++ "|" ++
+            ",".intercalate (l.map showFrameV)
+        | .ok _ => "err Unmodelled"
+        | .error e => "err " ++ e.name
+    | _, _ => "bad-op"
+  | _ => "bad-op"
+
+/-- `csircheck` : are the generated blocks the expected ones (`C15.source_is_expected_ir`)? -/
+def cmdCsCheck : Cmd := fun _ =>
+  let d : List String :=
+    (if Gen.PyIRCs.insertImage = KdVerif.PyIRCs.Expected.insertImage then [] else ["insert_image"]) ++
+    (if Gen.PyIRCs.frameLoop = KdVerif.PyIRCs.Expected.frameLoop then [] else ["feed_generator-frame-loop"]) ++
+    (if Gen.PyIRCs.notes.isEmpty then [] else ["notes"])
+  if d.isEmpty then "same" else "differs " ++ ",".intercalate d ++ (if csUnsupported then " unsupported" else "")
+
+def commands : List (String × Cmd) :=
+  [("pyir", cmdPyIR), ("pyircheck", cmdCheck), ("csir", cmdCsIR), ("csircheck", cmdCsCheck)]
 
 end Driver.PyIR
